@@ -609,6 +609,7 @@ class View(Nd):
         self.base = base
         self.spec = list(spec)
         self.shape = tuple(as_lin(s) for s in shape)
+        self.raw = {}  # view dim -> (lo, hi, lo_sign_unknown, hi_sign_unknown, axis length)
 
     def map(self, coords, q):
         out = []
@@ -624,8 +625,30 @@ class View(Nd):
         return out
 
     def cell(self, coords, q, **kw):
+        coords = list(coords)
+        if self.raw:
+            if not q.concrete:
+                for vd, (lo, hi, rl, rh, dim) in self.raw.items():
+                    if (rl and q.le(ZERO, lo) is not True) or (rh and q.le(ZERO, hi) is not True):
+                        return None
+            else:
+                # numpy semantics of the slice on this instance
+                fixed = dict()
+                for vd, (lo, hi, rl, rh, dim) in self.raw.items():
+                    d_ = q.env.eval(dim)
+                    a, b = q.env.eval(lo), q.env.eval(hi)
+                    a = max(0, a + d_) if (rl and a < 0) else min(max(a, 0), d_)
+                    b = max(0, b + d_) if (rh and b < 0) else min(max(b, 0), d_)
+                    c = q.env.eval(coords[vd])
+                    if not (0 <= c < max(0, b - a)):
+                        return OOB
+                    fixed[vd] = Lin.c(a + c - q.env.eval(lo))  # so that coords + lo == a + c
+                for vd, c in fixed.items():
+                    coords[vd] = c
         if q.concrete:
-            for c, n in zip(coords, self.shape):
+            for vd, (c, n) in enumerate(zip(coords, self.shape)):
+                if vd in self.raw:
+                    continue
                 if not q.inrange(c, ZERO, n):
                     return OOB
         bc = self.map(coords, q)
@@ -644,7 +667,9 @@ class View(Nd):
                 spec.append(("sl", s[1], s[2].subst(mapping)))
             else:
                 spec.append(("ga", s[1], Vec(s[2].base, s[2].off.subst(mapping), s[2].sorted, s[2].neg)))
-        return View(self.base, spec, [x.subst(mapping) for x in self.shape])
+        v = View(self.base, spec, [x.subst(mapping) for x in self.shape])
+        v.raw = {vd: (lo.subst(mapping), hi.subst(mapping), rl, rh, dim.subst(mapping)) for vd, (lo, hi, rl, rh, dim) in self.raw.items()}
+        return v
 
     def __repr__(self):
         parts = []
@@ -1124,7 +1149,7 @@ class AInterp(Interp):
             return dim + x
         return None
 
-    def parse_subscript(self, base, sl, st, frame):
+    def parse_subscript(self, base, sl, st, frame, allow_raw=False):
         """Per base dimension: ('pt', lin) | ('sl', lo, hi) | ('ga', Vec/Rng) ; or None."""
         elts = list(sl.elts) if isinstance(sl, ast.Tuple) else [sl]
         if len(elts) > base.ndim:
@@ -1137,19 +1162,29 @@ class AInterp(Interp):
                     return None
                 lo = ZERO
                 hi = dim
+                raw_lo = raw_hi = False
                 if el.lower is not None:
-                    lo = as_lin_val(self.ev(el.lower, st, frame))
+                    lo0 = as_lin_val(self.ev(el.lower, st, frame))
+                    if lo0 is None:
+                        return None
+                    lo = self.norm_index(lo0, dim, st)
                     if lo is None:
-                        return None
-                    lo = self.norm_index(lo, dim, st)
+                        lo, raw_lo = lo0, True
                 if el.upper is not None:
-                    hi = as_lin_val(self.ev(el.upper, st, frame))
-                    if hi is None:
+                    hi0 = as_lin_val(self.ev(el.upper, st, frame))
+                    if hi0 is None:
                         return None
-                    hi = self.norm_index(hi, dim, st)
-                if lo is None or hi is None:
-                    return None
-                out.append(("sl", lo, hi))
+                    hi = self.norm_index(hi0, dim, st)
+                    if hi is None:
+                        hi, raw_hi = hi0, True
+                if raw_lo or raw_hi:
+                    if not allow_raw:
+                        return None
+                    # sign of a bound unknown: read as non-negative symbolically (checked when cells are queried),
+                    # with numpy's wrap-around / clamping on concrete instances
+                    out.append(("sl", lo, hi, (raw_lo, raw_hi, dim)))
+                else:
+                    out.append(("sl", lo, hi))
                 continue
             v = self.ev(el, st, frame)
             if isinstance(v, Alt):
@@ -1171,7 +1206,7 @@ class AInterp(Interp):
     def ev_Subscript(self, e, st, frame):
         base = self.ev(e.value, st, frame)
         if isinstance(base, Nd):
-            spec = self.parse_subscript(base, e.slice, st, frame)
+            spec = self.parse_subscript(base, e.slice, st, frame, allow_raw=True)
             if spec is None:
                 return Opq("nd-index", [base])
             return self.make_view(base, spec)
@@ -1212,19 +1247,23 @@ class AInterp(Interp):
     def make_view(self, base, spec):
         if all(s[0] in ("pt", "ptw") for s in spec):
             return Elem(base, [s[1] for s in spec], [s[2] if s[0] == "ptw" else None for s in spec])
-        vspec, shape = [], []
+        vspec, shape, raw = [], [], {}
         for s in spec:
             if s[0] == "pt":
                 vspec.append(("pt", s[1]))
             elif s[0] == "ptw":
                 vspec.append(s)
             elif s[0] == "sl":
+                if len(s) > 3:
+                    raw[len(shape)] = (s[1], s[2]) + tuple(s[3])
                 vspec.append(("sl", len(shape), s[1]))
                 shape.append(s[2] - s[1])
             else:
                 vspec.append(("ga", len(shape), s[1]))
                 shape.append(vec_len(s[1]))
-        return View(base, vspec, shape)
+        v = View(base, vspec, shape)
+        v.raw = raw
+        return v
 
     def store_subscript(self, target, val, st, frame):
         base = self.ev(target.value, st, frame)
@@ -1465,6 +1504,8 @@ class AInterp(Interp):
                     return Opq("scalar-" + ext.split(".")[-1], [a])
                 return Opq(ext, args)
             lax = as_lin_val(ax)
+            if lax is not None and lax.is_const() and lax.const in (-1, -2) and a.ndim == 2:
+                lax = lax + 2
             if lax is not None and lax.is_const() and lax.const in (0, 1) and a.ndim == 2:
                 c = ColAgg(a, int(lax.const))
                 c.kind = ext.split(".")[-1]
